@@ -112,6 +112,15 @@ class KNode:
                                 f.write(hand[op[1] % len(hand)])
                         self.loads += 1
                         k.load_config(p, replace=bool(op[2]))
+                elif kind == "clobber":
+                    # fault: somebody else (another tool run, the user) rewrote or removed a file this instance had saved
+                    p = self.slot(op[1])
+                    if os.path.exists(p):
+                        if op[2]:
+                            os.remove(p)
+                        else:
+                            with builtins.open(p, "w") as f:
+                                f.write("# rewritten by somebody else\n")
                 elif kind == "load_bad":
                     # fault: a replacing load of a file that turns out to be unreadable part-way (not valid UTF-8 after a
                     # readable head).  The load fails - that is expected and not judged - and the instance lives on.
@@ -347,7 +356,7 @@ def gen_history(r, prog, n_ops, weights=None, sane=0.8, hand_n=0, slots=3, olds=
     hot = mentioned_names(prog) or names
     nch = sum(1 for it in kgen.walk(prog["items"]) if it["k"] == "choice")
     w = {"set": 40, "unset": 8, "cunset": 3, "reset": 8, "reset_menu": 3, "read": 18, "save": 6, "save_min": 0, "load": 6,
-         "load_hand": 3 if hand_n else 0, "restart": 4, "edge": 0, "dance": 2, "load_bad": 0, "stale_merge": 0}
+         "load_hand": 3 if hand_n else 0, "restart": 4, "edge": 0, "dance": 2, "load_bad": 0, "stale_merge": 0, "clobber": 0}
     member_bias = 0.25
     if weights:
         weights = dict(weights)
@@ -463,6 +472,8 @@ def gen_history(r, prog, n_ops, weights=None, sane=0.8, hand_n=0, slots=3, olds=
                 ops.append(["load", r.choice(sorted(saved)), int(r.random() < 0.6)])
         elif kind == "load_hand":
             ops.append(["load_hand", r.randrange(hand_n), int(r.random() < 0.5)])
+        elif kind == "clobber":
+            ops.append(["clobber", ("m%d" % r.randrange(slots)) if r.random() < 0.7 else r.randrange(slots), int(r.random() < 0.4)])
         elif kind == "load_bad":
             ops.append(["load_bad", r.choice(sorted(saved)) if saved else 0])
         elif kind == "stale_merge":
